@@ -251,7 +251,7 @@ def oracle(cases, impl):
     return fails, hist, nontrivial
 
 
-def shrink_case(ctx, cid, c, budget=120):
+def shrink_case(ctx, cid, c, first_failure=None, budget=120):
     """Delta debugging on the op list of a failing bare-node case (kind A): drop chunks of ops while the direct
     oracle still fails on the REAL code.  Declarations (W) and source dumps (Q) are kept."""
     if c[0] != "A":
@@ -262,11 +262,17 @@ def shrink_case(ctx, cid, c, budget=120):
     ops = c[3].split()
     fixed = [o for o in ops if o[0] in "WQ"]
     body = [o for o in ops if o[0] not in "WQ"]
+    # keep the SAME kind of failure; the "everything was delivered" promise of classes ord/snap does not survive the
+    # removal of deliveries, so candidates are judged as class any, and a pure end-state difference is not shrunk
+    kind = (first_failure or "")[:18]
+    if c[2] != "m0" and (not kind or kind.startswith("data replayed") or kind.startswith("the sender")):
+        return c
+    jclass = c[2] if c[2] in ("m0", "any") else "any"
 
     def fails(b):
         w = [o for o in fixed if o[0] == "W"]
         q = [o for o in fixed if o[0] == "Q"]
-        cand = [c[0], c[1], c[2], " ".join(w + b + q)]
+        cand = [c[0], c[1], jclass, " ".join(w + b + q)]
         with open(os.path.join(d, "cand.tsv"), "w") as f:
             f.write("\t".join(["s"] + cand) + "\n")
         rc, out, _ = sh("%s -replay cand.tsv -out ." % binp, cwd=d, timeout=120)
@@ -277,7 +283,7 @@ def shrink_case(ctx, cid, c, budget=120):
         if c[2] == "m0":
             return bool(oracle_m0({"s": cand}, impl))
         fs, _ = oracle_case("s", cand, impl.get("s"))
-        return bool(fs)
+        return any(x[:18] == kind for x in fs)
 
     n, runs = 2, 0
     while len(body) >= 2 and runs < budget:
@@ -412,10 +418,10 @@ def run(ctx):
 
     # shrink the first failing bare-node cases (the shrunk schedule is what the replay file carries)
     if not ctx.replay:
-        for f in all_fail[:3]:
+        for f in all_fail[:5]:
             try:
                 line = f["case"]["cases_tsv"][0].split("\t")
-                small = shrink_case(ctx, line[0], line[1:])
+                small = shrink_case(ctx, line[0], line[1:], first_failure=(f["case"].get("failures") or [None])[0])
                 if small != line[1:]:
                     f["case"]["original_cases_tsv"] = f["case"]["cases_tsv"]
                     f["case"]["cases_tsv"] = ["\t".join([line[0]] + small)]
